@@ -159,6 +159,8 @@ class CallMixin:
             return SV(CONST, None, None, extra=("func", f"{mod.dotted}:{n}"))
         if n in mod.classes:
             return SV(CONST, None, None, extra=("class", mod.dotted, n))
+        if n in self.ext_exc:
+            return SV(CONST, None, None, extra=("excclass", n))
         if n in mod.imports:
             origin = mod.imports[n]
             # function or class imported from another module of the repo
